@@ -29,6 +29,8 @@ func init() {
 			{"C13.R12", "q", "shared: collision table takes the position of a record moved by GC", c13r12},
 			{"C13.R9", "q", "shared: a colliding key in the hint buffer is reported to GC", c13r9},
 			{"C14.R4", "q", "shared: merge order and position comparison", c14r4},
+			{"C05.R2", "q", "shared: cancel only between files; record loop left only on errors / end of file", c05r2},
+			{"C14.R14", "q", "shared: split dump discipline (rotate before dump)", c14r14},
 		},
 	})
 }
